@@ -19,7 +19,7 @@ import itertools, math, re
 from .cfg import cfg_of, const_value, _strip_generics
 
 _vid = itertools.count(1)
-MEM_BOUND = 1 << 48          # no collection holds more than 2^48 elements ("sizes that would not fit in memory are excluded")
+MEM_BOUND = 1 << 40          # no collection holds more than 2^40 elements ("sizes that would not fit in memory are excluded")
 
 INT_TYPES = {'u8': (8, False), 'u16': (16, False), 'u32': (32, False), 'u64': (64, False), 'u128': (128, False), 'usize': (64, False),
              'i8': (8, True), 'i16': (16, True), 'i32': (32, True), 'i64': (64, True), 'i128': (128, True), 'isize': (64, True)}
@@ -566,7 +566,12 @@ class Interp:
         key = self.pkey(st, p)
         v = st.m.get(key)
         if v is not None: return v
-        return self.default(st, key, p['ty'], p)
+        v = self.default(st, key, p['ty'], p)
+        # give the unknown scalar an identity, so that a later test on one read of the place refines the next read too
+        # (sound under Rust's aliasing rules: the place can only change through this path, which kills the key)
+        if v.k in ('int', 'bool', 'float') and '[]' not in key[1]:
+            st.m[key] = v
+        return v
 
     def default(self, st, key, tystr, p=None):
         """value of an untracked place: folded const item, field contract, or type range"""
@@ -891,6 +896,28 @@ class Interp:
         if rv['r'] == 'use' and rv['a']['o'] == 'move' and src_key is not None and src_key == self.pkey(st, lhs):
             return
         self.write_place(st, lhs, val, src_key if rv['r'] == 'use' else None)
+        if val.k == 'top' and val.extra and val.extra[0] == 'item' and len(val.extra) == 2:
+            self._expand_item(st, self.pkey(st, lhs), val.extra[1])
+
+    def _expand_item(self, st, key, item):
+        """a small constant struct/tuple: write its scalar leaves into the state (so they survive joins)"""
+        from . import tables
+        try:
+            v = tables.fold_const(self.F, self.crate + '::' + item)
+        except Exception:
+            return
+        def walk(x, path, depth):
+            if depth > 3: return
+            if x[0] == 'int': st.m[(key[0], key[1] + path)] = mk_int(x[1], x[1], ('int', x[2], x[3]))
+            elif x[0] == 'bool': st.m[(key[0], key[1] + path)] = mk_bool({int(x[1])})
+            elif x[0] in ('tuple', 'struct'):
+                for i, f in enumerate(x[1]): walk(f, path + (i,), depth + 1)
+            elif x[0] == 'enum':
+                adt = self.F.adts.get(self.crate + '::' + x[1])
+                if adt and adt['kind'] == 'struct':
+                    for i, f in enumerate(x[3]): walk(f, path + (i,), depth + 1)
+        if v[0] in ('tuple', 'struct', 'enum'):
+            walk(v, (), 0)
 
     def aggregate(self, st, lhs, rv):
         kd = rv['kind']; key = self.pkey(st, lhs)
@@ -1100,6 +1127,7 @@ class Interp:
         ins = {0: self.initial()}
         edge = {}
         visits = {}
+        inv = self._loop_invariant_locals()
 
         def incoming(bb):
             ss = [edge[(p, bb)] for p in g.pred[bb] if (p, bb) in edge and edge[(p, bb)] is not None]
@@ -1118,6 +1146,23 @@ class Interp:
                         if bb not in ins: continue
                     else:
                         old = ins.get(bb)
+                        if bb in heads:
+                            # locals that are never assigned (nor mutably borrowed) inside the loop have, on every back edge,
+                            # the value they had on entry: take it from the entry edges only
+                            loop = g.loops()[bb]
+                            ent = [edge[(p, bb)] for p in g.pred[bb] if p not in loop and edge.get((p, bb)) is not None]
+                            if ent:
+                                e0 = ent[0]
+                                for e1 in ent[1:]: e0 = join_states(e0, e1)
+                                keep = inv[bb]
+                                for k in [k for k in new_in.m if k[0] in keep]:
+                                    del new_in.m[k]
+                                for k, v in e0.m.items():
+                                    if k[0] in keep: new_in.m[k] = v
+                                if old is not None:
+                                    old = State({k: v for k, v in old.m.items() if k[0] not in keep})
+                                    for k, v in e0.m.items():
+                                        if k[0] in keep: old.m[k] = v
                         if bb in heads and old is not None:
                             if mode == 'widen':
                                 visits[bb] = visits.get(bb, 0) + 1
@@ -1169,6 +1214,39 @@ class Interp:
         self.collecting = False
         self.returns = ret or {}
         return self
+
+    def _loop_invariant_locals(self):
+        """per loop header: locals not assigned, not the destination of a call, not mutably borrowed and not written through
+        by any callee inside the loop"""
+        g = self.g
+        nloc = len(self.body['locals'])
+        borrowed = set()
+        for bb in g.reach:
+            for s_ in self.blocks[bb]['stmts']:
+                if s_['s'] == 'assign' and s_['rv']['r'] in ('ref', 'rawptr') and ('Mut' in s_['rv'].get('bk', 'Mut') or s_['rv']['r'] == 'rawptr'):
+                    borrowed.add(s_['rv']['p']['l'])
+        out = {}
+        for h, loop in g.loops().items():
+            mod = set(borrowed)
+            for bb in loop:
+                for s_ in self.blocks[bb]['stmts']:
+                    if s_['s'] == 'assign': mod.add(s_['lhs']['l'])
+                    elif s_['s'] == 'setdiscr': mod.add(s_['p']['l'])
+                t = self.blocks[bb]['term']
+                if t['t'] == 'call': mod.add(t['dest']['l'])
+                if t['t'] == 'drop': mod.add(t['p']['l'])
+                for e in self.eff_at.get(bb, []):
+                    if e.loc[0][0] in ('local', 'param'): mod.add(e.loc[0][1])
+            # references held in unmodified locals may still point to modified memory: only value-typed locals qualify
+            keep = set()
+            for l in range(nloc):
+                if l in mod: continue
+                k = self.body['locals'][l]['t']['k']
+                if k in ('int', 'bool', 'float', 'tuple', 'array', 'adt', 'closure', 'other'):
+                    if '&' in self.body['locals'][l]['s'] and k != 'int': continue
+                    keep.add(l)
+            out[h] = keep
+        return out
 
     def _meet_keep(self, old, new):
         """both describe the same concrete states soundly: per place take the new value where it is below the old one"""
@@ -1231,7 +1309,7 @@ class Interp:
                 self._havoc(st, e.loc)
         result = None; payload = None
         if callee:
-            self._check_param_contracts(bb, callee, args, t)
+            self._check_param_contracts(bb, callee, args, t, st, akeys)
             summ = self.ctx.summaries.get(callee)
             dkey = self.pkey(st, dest)
             st.set(dkey, top_of(dest['ty']))
@@ -1325,7 +1403,7 @@ class Interp:
                 nv.ubs = frozenset(u for u in v.ubs if not (isinstance(u, tuple) and u[0] == 'veclen' and u[1][0] == l))
                 st.m[k] = nv
 
-    def _check_param_contracts(self, bb, callee, args, t):
+    def _check_param_contracts(self, bb, callee, args, t, st=None, akeys=None):
         con = self.ctx.contracts.get('params', {}).get(callee)
         if self.collecting:
             obs = self.ctx.param_obs.setdefault(callee, {})
@@ -1337,11 +1415,23 @@ class Interp:
             st.m[(1, path)] = av.clone(vid=None)
         for pk, spec in con.items():
             key = _contract_key(pk)
-            if key[1]: continue          # contracts on parts of a parameter are assumptions on the pointee: checked by field contracts
             i = key[0] - 1
             if i >= len(args): continue
             want = self._from_spec(spec, None)
             a = args[i]
+            if key[1]:
+                if '*' in key[1]: continue      # assumptions on a pointee: checked by field contracts where it is produced
+                a = None
+                if akeys and akeys[i] is not None and st is not None:
+                    a = st.m.get((akeys[i][0], akeys[i][1] + key[1]))
+                    if a is None:
+                        # the argument is a constant item or an untracked place
+                        base = st.m.get(akeys[i])
+                        if base is not None and base.extra and base.extra[0] == 'item':
+                            a = self.ctx.models.item_hull(self.F, self.crate, base.extra[1], tuple(base.extra[2] if len(base.extra) > 2 else ()) + key[1], spec.get('ty', 'i64'))
+                if a is None and args[i].extra and args[i].extra[0] == 'item':
+                    a = self.ctx.models.item_hull(self.F, self.crate, args[i].extra[1], tuple(args[i].extra[2] if len(args[i].extra) > 2 else ()) + key[1], spec.get('ty', 'i64'))
+                if a is None: a = AV('top')
             ok = False
             if want is not None and want.k == 'int' and a.k == 'int': ok = want.lo <= a.lo and a.hi <= want.hi
             elif want is not None and want.k == 'bool' and a.k == 'bool': ok = a.vs <= want.vs
